@@ -546,6 +546,13 @@ func init() {
 			}
 			firstUse(r, fe)
 		})
+		r.Phase("reports after other process histories and under other environments", func() {
+			var es [][]string
+			for _, l := range []string{"und", "fr", "en", "ja", "de-x-any"} {
+				es = append(es, []string{"reports", l})
+			}
+			historyAndEnvironment(r, es, []string{"v2-first", "both"})
+		})
 		r.Phase("language orders", func() { languageOrders(r, langs, &n) })
 		r.Phase("reports after field assignment", func() { reportsAfterAssignment(r, langs[:3], &n) })
 		r.Phase("language option lists", func() { optionLists(r, &n) })
